@@ -27,12 +27,18 @@ type SimFile struct {
 	Plan   WritePlan
 	calls  int
 	Fired  int // how many injected write errors were actually returned
+	// OnWrite, if set, is called at the start of every Write (a slow destination: the
+	// simulated thread yields to the scheduler in the middle of its output)
+	OnWrite func()
 	closed bool
 }
 
 func NewSimFile() *SimFile { return &SimFile{Plan: WritePlan{FailAtByte: -1}} }
 
 func (f *SimFile) Write(p []byte) (int, error) {
+	if f.OnWrite != nil {
+		f.OnWrite()
+	}
 	f.calls++
 	pl := &f.Plan
 	healed := (pl.Once || pl.ShortNoErr) && pl.fired
